@@ -74,6 +74,7 @@ type SEv struct {
 	Top    int    `json:"top"`
 	Name   string `json:"name"`
 	Kids   []int  `json:"kids"`
+	Code   int    `json:"code"` // enter: size of the code at the target when the frame was entered
 }
 
 func clamp(v uint64) int64 {
@@ -111,8 +112,9 @@ func bigS(v *big.Int) string {
 }
 
 type stepRec struct {
-	evs   []SEv
-	limit int
+	evs      []SEv
+	limit    int
+	codeSize func(common.Address) int
 }
 
 func (r *stepRec) add(e SEv) {
@@ -127,8 +129,12 @@ func (r *stepRec) enter(top bool, kind string, from, to common.Address, input []
 	if top {
 		t = 1
 	}
-	r.add(SEv{K: "enter", Top: t, Kind: kind, From: hex.EncodeToString(from[:]), To: hex.EncodeToString(to[:]), InH: sh(input), InLen: len(input),
-		Gas: clamp(gas), GasX: fmt.Sprint(gas), Val: bigS(value)})
+	e := SEv{K: "enter", Top: t, Kind: kind, From: hex.EncodeToString(from[:]), To: hex.EncodeToString(to[:]), InH: sh(input), InLen: len(input),
+		Gas: clamp(gas), GasX: fmt.Sprint(gas), Val: bigS(value)}
+	if r.codeSize != nil {
+		e.Code = r.codeSize(to)
+	}
+	r.add(e)
 }
 
 func (r *stepRec) exit(top bool, out []byte, used uint64, err error) {
@@ -425,6 +431,7 @@ func accessListWarm(p *gen.Program) ([]common.Address, []common.Hash) {
 func runArtela(p *gen.Program, o runOpts) (out runOut) {
 	st := prepState(p)
 	rec := &aRec{stepRec{limit: o.limit}}
+	rec.codeSize = func(a common.Address) int { return st.GetCodeSize(a) }
 	envo := evmx.EnvOpts{Fork: o.fork, State: st, ExtraEips: o.eips, Origin: gen.EO}
 	e := evmx.NewEnv(envo)
 	var tee *aTee
@@ -451,6 +458,10 @@ func runArtela(p *gen.Program, o runOpts) (out runOut) {
 		e = evmx.NewEnvWithTracer(envo, tee)
 	}
 	e.EVM.IsExecuteJP = o.jpOn
+	var firings []SEv
+	e.Host.OnFire = func(f evmx.Firing) {
+		firings = append(firings, SEv{K: "jp", D: len(rec.evs), To: f.Contract, Name: f.Point, I0: -2, I1: -2, I2: -2})
+	}
 	rules := e.Rules()
 	to := p.To
 	var dst *common.Address
@@ -500,7 +511,22 @@ func runArtela(p *gen.Program, o runOpts) (out runOut) {
 	out.evs = rec.evs
 	out.result = resultEv(ret, left, err, panicked, st, rules.IsEIP158, addr)
 	if o.tracer && panicked == "" {
-		out.tree = treeLines(e, o.limit > 0 && len(rec.evs) >= o.limit)
+		truncated := o.limit > 0 && len(rec.evs) >= o.limit
+		out.tree = treeLines(e, truncated)
+		if o.jpOn {
+			// the provider's log of join-point firings with the position in the callback stream at which each happened
+			if truncated {
+				for i := range firings {
+					firings[i].Top = 1
+				}
+			}
+			out.tree = append(out.tree, firings...)
+			end := SEv{K: "jpend", D: len(firings), I0: -2, I1: -2, I2: -2}
+			if truncated {
+				end.Top = 1
+			}
+			out.tree = append(out.tree, end)
+		}
 	}
 	if o.tracers && o.tracer {
 		names := make([]string, 0, len(named))
@@ -546,6 +572,7 @@ func canonAccessList(al types.AccessList) []byte {
 func runRef(p *gen.Program, o runOpts) (out runOut) {
 	st := prepState(p)
 	rec := &rRec{stepRec{limit: o.limit}}
+	rec.codeSize = func(a common.Address) int { return st.GetCodeSize(a) }
 	var tracer refvm.EVMLogger
 	var sl *rlogger.StructLogger
 	var al *rlogger.AccessListTracer
@@ -689,6 +716,9 @@ func forkRulesBits(fork string) string { return fork }
 func writeRun(w *os.File, meta progMeta, a, r runOut) int {
 	enc := json.NewEncoder(w)
 	reset := SEv{K: "reset", Name: fmt.Sprintf("%d/%s/%s/%s/%d/%s", meta.Idx, meta.Name, meta.Fork, meta.Entry, meta.Gas, meta.Cfg), Kind: meta.Fork, I0: -2, I1: -2, I2: -2}
+	if strings.HasSuffix(meta.Cfg, "+jp") && strings.HasPrefix(meta.Cfg, "tracer") {
+		reset.Top = 1 // join points are on (nothing bound) and the stream is recorded
+	}
 	_ = enc.Encode(pairLine{A: reset, R: reset})
 	n := 1
 	for _, l := range zip(a.evs, r.evs) {
@@ -765,6 +795,7 @@ func traceCmd(args []string) int {
 	sweep := fs.Int("sweep", 0, "gas limits per program in the gas sweep (0 = none)")
 	batches := fs.Int("batches", 8, "number of batch files")
 	tracersEvery := fs.Int("tracers-every", 4, "attach the inherited tracers to every k-th program")
+	jpEvery := fs.Int("jp-every", 3, "run every k-th program also with the tracer on and join points on (nothing bound)")
 	limit := fs.Int("limit", 4000, "callbacks recorded per run (the rest of a longer run is cut on both sides alike)")
 	_ = fs.Parse(args)
 	forks := strings.Split(*forksF, ",")
@@ -839,7 +870,7 @@ func traceCmd(args []string) int {
 					{"tracer", runOpts{fork: j.fork, gas: p.Gas, tracer: true, tracers: withTracers, limit: *limit}},
 					{"notracer+jp", runOpts{fork: j.fork, gas: p.Gas, tracer: false, jpOn: true, limit: *limit}},
 				}
-				if j.i%3 == 0 {
+				if *jpEvery > 0 && j.i%*jpEvery == 0 {
 					vs = append(vs, variant{"tracer+jp", runOpts{fork: j.fork, gas: p.Gas, tracer: true, jpOn: true, limit: *limit}})
 				}
 				if j.i%5 == 0 && evmx.ForkIndex(j.fork) >= evmx.ForkIndex("Byzantium") {
